@@ -196,13 +196,17 @@ def native_split(task, parsed):
     safe, danger = [], {}
     for k, c in enumerate(task["calls"]):
         spec = outs[k] if k < len(outs) else None
-        if spec and spec[0] == "trap" and ("divide" in spec[1] or "division" in spec[1]):
+        divlike = any(x in c[2] for x in (".div_", ".rem_"))
+        n = 32 if c[2].startswith("i32") else 64
+        overflow = divlike and len(c[1]) == 2 and c[1][0] == 1 << (n - 1) and c[1][1] == (1 << n) - 1
+        if (spec and spec[0] == "trap" and ("divide" in spec[1] or "division" in spec[1])) or overflow:
             danger.setdefault(c[2], []).append(k)
         else:
             safe.append(k)
     parts = [(dict(task, id=task["id"] + "-safe", calls=[task["calls"][k] for k in safe]), (inst, [outs[k] for k in safe], None))]
     for label, ks in danger.items():
-        ks = ks[:1] + ks[-2:]
+        ov = [k for k in ks if task["calls"][k][1][1] != 0][:1]
+        ks = sorted(set(ks[:1] + ks[-1:] + ov))
         d = R_.single_op_module(label)
         sub = dict(task, id=f"ops-{label}", desc=d, calls=[(0, task["calls"][k][1], label) for k in ks], nofinal=True)
         parts.append((sub, (inst, [outs[k] for k in ks], None)))
@@ -215,28 +219,43 @@ def thin_for_native(task):
 
 
 def run_tasks(ctx, tasks, targets, budget=240, workers=4):
-    """reference run (Lean) + real runs (forked children) + comparison; every difference goes to ctx.fail"""
+    """reference run (Lean) + real runs (worker processes) + comparison; every difference goes to ctx.fail.
+    `tasks`: list of task dicts; a task with "targets" runs only on those."""
     from harness.common import BrokenCheck
     failed_ops = {}
-    plan = []          # (task, target, parsed)
+    todo = []          # (task, target)
     for target in targets:
-        ts = [thin_for_native(t) if target == "native" else t for t in tasks]
-        reqs = [G_.request(G_.prepare(t["desc"]), [(c[0], c[1]) for c in t["calls"]], R_.FUEL) for t in ts]
-        replies = ctx.driver("C22", reqs)
-        for t, rep in zip(ts, replies):
-            parsed = R_.parse_reply(rep)
-            if parsed[0][0] == "bad" or str(parsed[0]).startswith("inst-stuck") or any(o[0] == "stuck" for o in parsed[1]):
-                raise BrokenCheck(f"the reference interpreter rejected generated task {t['id']} (generator bug): {rep[:300]}")
-            if target == "native" and t["kind"] == "ops":
-                for sub, sp in native_split(t, parsed):
-                    plan.append((sub, target, sp))
-            else:
-                plan.append((t, target, parsed))
+        for t in tasks:
+            if target in t.get("targets", targets):
+                todo.append((thin_for_native(t) if target == "native" else t, target))
+    # one reference run per distinct task (the native variant of a thinned task is a different request)
+    reqs, index = [], {}
+    for t, _target in todo:
+        if id(t) not in index:
+            index[id(t)] = len(reqs)
+            reqs.append(G_.request(G_.prepare(t["desc"]), [(c[0], c[1]) for c in t["calls"]], R_.FUEL))
+    import time as _time
+    t0 = _time.time()
+    replies = ctx.driver("C22", reqs)
+    t1 = _time.time()
+    plan = []          # (task, target, parsed)
+    for t, target in todo:
+        rep = replies[index[id(t)]]
+        parsed = R_.parse_reply(rep)
+        if parsed[0][0] == "bad" or str(parsed[0]).startswith("inst-stuck") or any(o[0] == "stuck" for o in parsed[1]):
+            raise BrokenCheck(f"the reference interpreter rejected generated task {t['id']} (generator bug): {rep[:300]}")
+        if target == "native" and t["kind"] == "ops":
+            for sub, sp in native_split(t, parsed):
+                plan.append((sub, target, sp))
+        else:
+            plan.append((t, target, parsed))
     jobs = [X_.Job((t["id"], target), t["desc"], target, [(c[0], c[1]) for c in t["calls"]], t.get("stateless", False),
-                   40 if t["kind"] == "program" else budget, after=t.get("after"), twice=t.get("twice", False))
+                   120 if t["kind"] == "program" else budget, after=t.get("after"), twice=t.get("twice", False))
             for t, target, _p in plan]
     X_.warm(targets)
     X_.run_jobs(jobs, workers=workers)
+    t2 = _time.time()
+    ctx.extra_cov.setdefault("timing_s", {}).update({"reference_interpreter": round(t1 - t0, 1), "ppci_workers": round(t2 - t1, 1)})
     first = {}
 
     def report(sig, what, case, **detail):
@@ -251,8 +270,8 @@ def run_tasks(ctx, tasks, targets, budget=240, workers=4):
         cnt = R_.evaluate(t, target, jobs[i], parsed, report, failed_ops)
         ctx.count(f"eval_{target}_{t['kind']}", cnt["calls"])
         ctx.count(f"agree_{target}", cnt["agree"])
-        for k in ("skipped_nan_bits", "skipped_oof", "skipped_known_region"):
-            if cnt[k]:
+        for k in ("skipped_nan_bits", "skipped_oof", "skipped_known_region", "skipped_slow_instantiate"):
+            if cnt.get(k):
                 ctx.count(f"{k}_{target}", cnt[k])
         ctx.count("programs" if t["kind"] == "program" else "modules")
         for c in t["calls"][:: max(1, len(t["calls"]) // 50)]:
@@ -263,9 +282,19 @@ def run_tasks(ctx, tasks, targets, budget=240, workers=4):
 def module_tasks(ctx):
     """fixed part first (independent of the seed: boundary operator matrix, patterns = corpus incl. the inputs of every known
     finding), then the seeded part (random operands of the matrix, random programs)"""
-    tasks = [G_.ops_task(ctx.rng, ctx.thorough)] + G_.pattern_tasks()
-    tasks += G_.program_tasks(ctx.rng, 400 if ctx.thorough else 70)
-    return tasks
+    import random
+    ops = G_.ops_task(ctx.rng, ctx.thorough)
+    tasks = [ops]
+    if ctx.thorough:
+        # the native target gets the smaller (quick-tier) matrix: same fixed boundary part, fewer random operands
+        ops["targets"] = ["python"]
+        tasks.append(dict(G_.ops_task(random.Random(ctx.rng.getrandbits(32)), False), id="ops-native", targets=["native"]))
+    tasks += G_.pattern_tasks(None, ctx.thorough)
+    progs = G_.program_tasks(ctx.rng, 300 if ctx.thorough else 60)
+    for k, p in enumerate(progs):
+        if k >= 80:
+            p["targets"] = ["python"]          # native compilation is slow: the first 80 programs only
+    return tasks + progs
 
 
 def check_modules(ctx):
